@@ -100,7 +100,15 @@ class Scenario:
     def assume(self, cond, what=''):
         if self.mode == 'sym':
             if isinstance(cond, SymBool):
-                core.CTX.assume.append(cond.n)
+                t = core.const_truth(cond.n)
+                if t is True:
+                    return
+                if core.CTRL is not None and core.CTRL.pc:
+                    # stated after decisions were taken: it may depend on the path, so it belongs to the path condition
+                    # (a global assumption would leak into the other paths)
+                    core.CTRL.assume_local(cond.n)
+                else:
+                    core.CTX.assume.append(cond.n)
             elif not cond:
                 raise Reject(f'precondition false: {what}')
         else:
